@@ -24,6 +24,7 @@ def smc_contracts(ctx, repo, prop):
     dsl.verify(ctx, repo, S.base_registry(), prop + ".kernel.create_particle", S.CREATE, S.h_create_particle, expect_covers=S.CREATE_COVERS)
     dsl.verify(ctx, repo, S.base_registry(), prop + ".smc.get_log_w", S.GETLOGW, S.h_get_log_w, expect_covers=["last", "not-last"])
     dsl.verify(ctx, repo, S.base_registry(), prop + ".swarm", S.SWARM, S.h_swarm)
+    dsl.verify(ctx, repo, S.base_registry(), prop + ".swarm", [S.SWARM + ".__init__", S.SWARM + ".add_particle"], S.h_swarm_add, expect_covers=["swarm.add"])
     dsl.verify(ctx, repo, S.update_registry(), prop + ".csmc.update_swarm", S.CSMC + "._update_swarm", S.h_update_swarm,
                expect_covers=["update-last", "update-not-last"])
     dsl.verify(ctx, repo, S.init_registry(), prop + ".csmc.init_swarm", S.CSMC + "._init_swarm", S.h_init_swarm, expect_covers=["init-T1", "init-T>1"])
